@@ -161,7 +161,7 @@ static mjSpec* spec_rich(int longnames) {
   mjsGeom* gc = mjs_addGeom(c2, NULL); gc->type = mjGEOM_CYLINDER; gc->size[0] = 0.03; gc->size[1] = 0.05; mjs_setName(gc->element, "gcyl");
   gc->pos[0] = 0.1; gc->contype = 0; gc->conaffinity = 0;
   // tendons: fixed and spatial
-  mjsTendon* tf = mjs_addTendon(s, NULL); mjs_setName(tf->element, NM("tfix"));
+  mjsTendon* tf = mjs_addTendon(s, NULL); mjs_setName(tf->element, "tfix");
   mjs_wrapJoint(tf, "h1", 1.0); mjs_wrapJoint(tf, "h2", -0.5);
   mjsTendon* ts = mjs_addTendon(s, NULL); mjs_setName(ts->element, "tspat"); ts->width = 0.01;
   mjs_wrapSite(ts, "s1"); mjs_wrapGeom(ts, "gcyl", ""); mjs_wrapSite(ts, "s2"); mjs_wrapSite(ts, "s3");
@@ -181,6 +181,15 @@ static mjSpec* spec_rich(int longnames) {
   mjs_setString(a6->target, "s3"); mjs_setString(a6->refsite, "s1"); a6->gear[0] = 1; a6->gainprm[0] = 1;
   mjsActuator* a7 = mjs_addActuator(s, NULL); mjs_setName(a7->element, NM("a7")); a7->trntype = mjTRN_JOINTINPARENT;
   mjs_setString(a7->target, "bj"); a7->gear[0] = 1; a7->gainprm[0] = 1;
+  // a second actuator on joint h1 and on tendon tspat, all with damping/armature: jnt_actuatorid / tendon_actuatorid take
+  // the values id (bj), -2 "several actuators" (h1, tfix) and -1 (the rest)
+  a1->damping[0] = 0.1; a7->damping[0] = 0.05;
+  mjsActuator* a8 = mjs_addActuator(s, NULL); mjs_setName(a8->element, NM("a8")); a8->trntype = mjTRN_JOINT;
+  mjs_setString(a8->target, "h1"); a8->gainprm[0] = 1; a8->armature = 0.01;
+  mjsActuator* a9 = mjs_addActuator(s, NULL); mjs_setName(a9->element, NM("a9")); a9->trntype = mjTRN_TENDON;
+  mjs_setString(a9->target, "tfix"); a9->gainprm[0] = 1; a9->damping[0] = 0.2;
+  mjsActuator* a10 = mjs_addActuator(s, NULL); mjs_setName(a10->element, NM("a10")); a10->trntype = mjTRN_TENDON;
+  mjs_setString(a10->target, "tfix"); a10->gainprm[0] = 1; a10->damping[0] = 0.3;
   // sensors
   mjsSensor* se1 = mjs_addSensor(s); mjs_setName(se1->element, NM("se1")); se1->type = mjSENS_JOINTPOS; se1->objtype = mjOBJ_JOINT;
   mjs_setString(se1->objname, "h1"); double su[1] = {3}; setd(se1->userdata, su, 1);
@@ -543,7 +552,7 @@ int main(void) {
       E(mjTRN_JOINT) E(mjTRN_JOINTINPARENT) E(mjTRN_SLIDERCRANK) E(mjTRN_TENDON) E(mjTRN_SITE) E(mjTRN_BODY) E(mjTRN_SO3) E(mjTRN_UNDEFINED)
       E(mjWRAP_NONE) E(mjWRAP_JOINT) E(mjWRAP_PULLEY) E(mjWRAP_SITE) E(mjWRAP_SPHERE) E(mjWRAP_CYLINDER)
       E(mjEQ_CONNECT) E(mjEQ_WELD) E(mjEQ_JOINT) E(mjEQ_TENDON) E(mjEQ_FLEX) E(mjEQ_FLEXVERT) E(mjEQ_FLEXSTRAIN)
-      E(mjGEOM_HFIELD) E(mjGEOM_MESH) E(mjGEOM_SDF)
+      E(mjGEOM_HFIELD) E(mjGEOM_MESH) E(mjGEOM_SDF) E(mjSENS_PLUGIN) E(mjSENS_USER) E(mjSENS_TACTILE)
       E(mjOBJ_UNKNOWN) E(mjOBJ_BODY) E(mjOBJ_XBODY) E(mjOBJ_JOINT) E(mjOBJ_DOF) E(mjOBJ_GEOM) E(mjOBJ_SITE) E(mjOBJ_CAMERA) E(mjOBJ_LIGHT)
       E(mjOBJ_FLEX) E(mjOBJ_MESH) E(mjOBJ_SKIN) E(mjOBJ_HFIELD) E(mjOBJ_TEXTURE) E(mjOBJ_MATERIAL) E(mjOBJ_PAIR) E(mjOBJ_EXCLUDE)
       E(mjOBJ_EQUALITY) E(mjOBJ_TENDON) E(mjOBJ_ACTUATOR) E(mjOBJ_SENSOR) E(mjOBJ_NUMERIC) E(mjOBJ_TEXT) E(mjOBJ_TUPLE) E(mjOBJ_KEY)
